@@ -244,8 +244,7 @@ fn vbe_ctrl(bytes: &[u8]) -> mb::VBEControlInfo {
 fn vbe_mode_raw(bytes: &[u8]) -> [u8; 256] {
     let mut raw: [u8; 256] = fixed(bytes);
     // the one enum-typed byte (memory model, 0..=7) must hold a valid value
-    let off = std::mem::offset_of!(mb::VBEModeInfo, memory_model);
-    raw[off] &= 7;
+    raw[27] &= 7;
     raw
 }
 
@@ -253,6 +252,100 @@ fn vbe_mode(bytes: &[u8]) -> mb::VBEModeInfo {
     let raw = vbe_mode_raw(bytes);
     // SAFETY: as above, with the enum byte constrained.
     unsafe { std::mem::transmute::<[u8; 256], mb::VBEModeInfo>(raw) }
+}
+
+// --- the same two blocks built *field by field* through the public fields.
+// Offsets are those of the VBE 3.0 VbeInfoBlock / ModeInfoBlock (the structures
+// the Multiboot2 specification says the tag embeds); private reserved areas
+// stay at their `Default` (zero).
+
+fn le16(b: &[u8], o: usize) -> u16 {
+    u16::from_le_bytes([b[o], b[o + 1]])
+}
+fn le32(b: &[u8], o: usize) -> u32 {
+    u32::from_le_bytes([b[o], b[o + 1], b[o + 2], b[o + 3]])
+}
+
+fn vbe_ctrl_fields(bytes: &[u8]) -> mb::VBEControlInfo {
+    let r: [u8; 512] = fixed(bytes);
+    let mut c = mb::VBEControlInfo::default();
+    c.signature = [r[0], r[1], r[2], r[3]];
+    c.version = le16(&r, 4);
+    c.oem_string_ptr = le32(&r, 6);
+    c.capabilities = mb::VBECapabilities::from_bits_retain(le32(&r, 10));
+    c.mode_list_ptr = le32(&r, 14);
+    c.total_memory = le16(&r, 18);
+    c.oem_software_revision = le16(&r, 20);
+    c.oem_vendor_name_ptr = le32(&r, 22);
+    c.oem_product_name_ptr = le32(&r, 26);
+    c.oem_product_revision_ptr = le32(&r, 30);
+    c
+}
+
+/// VbeInfoBlock image expected for `vbe_ctrl_fields`: 34 defined bytes, then
+/// the reserved area and the OEM scratch area (zero).
+fn vbe_ctrl_fields_image(bytes: &[u8]) -> [u8; 512] {
+    let r: [u8; 512] = fixed(bytes);
+    let mut out = [0u8; 512];
+    out[..34].copy_from_slice(&r[..34]);
+    out
+}
+
+fn vbe_mode_fields(bytes: &[u8]) -> mb::VBEModeInfo {
+    let r = vbe_mode_raw(bytes);
+    let mut m = mb::VBEModeInfo::default();
+    m.mode_attributes = mb::VBEModeAttributes::from_bits_retain(le16(&r, 0));
+    m.window_a_attributes = mb::VBEWindowAttributes::from_bits_retain(r[2]);
+    m.window_b_attributes = mb::VBEWindowAttributes::from_bits_retain(r[3]);
+    m.window_granularity = le16(&r, 4);
+    m.window_size = le16(&r, 6);
+    m.window_a_segment = le16(&r, 8);
+    m.window_b_segment = le16(&r, 10);
+    m.window_function_ptr = le32(&r, 12);
+    m.pitch = le16(&r, 16);
+    m.resolution = (le16(&r, 18), le16(&r, 20));
+    m.character_size = (r[22], r[23]);
+    m.number_of_planes = r[24];
+    m.bpp = r[25];
+    m.number_of_banks = r[26];
+    m.memory_model = match r[27] & 7 {
+        0 => mb::VBEMemoryModel::Text,
+        1 => mb::VBEMemoryModel::CGAGraphics,
+        2 => mb::VBEMemoryModel::HerculesGraphics,
+        3 => mb::VBEMemoryModel::Planar,
+        4 => mb::VBEMemoryModel::PackedPixel,
+        5 => mb::VBEMemoryModel::Unchained,
+        6 => mb::VBEMemoryModel::DirectColor,
+        _ => mb::VBEMemoryModel::YUV,
+    };
+    m.bank_size = r[28];
+    m.number_of_image_pages = r[29];
+    // r[30]: reserved
+    m.red_field = mb::VBEField { size: r[31], position: r[32] };
+    m.green_field = mb::VBEField { size: r[33], position: r[34] };
+    m.blue_field = mb::VBEField { size: r[35], position: r[36] };
+    m.reserved_field = mb::VBEField { size: r[37], position: r[38] };
+    m.direct_color_attributes = mb::VBEDirectColorAttributes::from_bits_retain(r[39]);
+    m.framebuffer_base_ptr = le32(&r, 40);
+    m.offscreen_memory_offset = le32(&r, 44);
+    m.offscreen_memory_size = le16(&r, 48);
+    m
+}
+
+fn vbe_mode_fields_image(bytes: &[u8]) -> [u8; 256] {
+    let r = vbe_mode_raw(bytes);
+    let mut out = [0u8; 256];
+    out[..50].copy_from_slice(&r[..50]);
+    out[30] = 0;
+    out
+}
+
+fn vbe_args(op: &Op) -> (mb::VBEControlInfo, mb::VBEModeInfo) {
+    if a(op, 4) % 2 == 1 {
+        (vbe_ctrl_fields(op.bytes(0)), vbe_mode_fields(op.bytes(1)))
+    } else {
+        (vbe_ctrl(op.bytes(0)), vbe_mode(op.bytes(1)))
+    }
 }
 
 /// 8-aligned, fully initialised storage for `n` EFI descriptors built from
@@ -344,15 +437,17 @@ pub fn build(c: Ctor, op: &Op) -> Built {
             let areas = mmap_areas(op);
             Built::Mmap(mb::MemoryMapTag::new(&areas))
         }
-        // a = [mode, seg, off, len], b[0] = 512 control bytes, b[1] = 256 mode bytes
+        // a = [mode, seg, off, len, via_fields], b[0] = 512 control bytes, b[1] = 256 mode bytes
+        // (via_fields: the two VBE blocks are filled through their public fields
+        // instead of being transmuted from raw bytes)
         Ctor::Vbe => {
             let t = mb::VBEInfoTag::new(
                 a(op, 0) as u16,
                 a(op, 1) as u16,
                 a(op, 2) as u16,
                 a(op, 3) as u16,
-                vbe_ctrl(op.bytes(0)),
-                vbe_mode(op.bytes(1)),
+                vbe_args(op).0,
+                vbe_args(op).1,
             );
             // The by-value result is what is under test; this Box is made
             // outside the simulated heap and is only a container.
@@ -700,7 +795,11 @@ pub fn spec(c: Ctor, op: &Op) -> Spec {
         }
         Ctor::Vbe => {
             e.u16(a(op, 0)).u16(a(op, 1)).u16(a(op, 2)).u16(a(op, 3));
-            e.raw(&fixed::<512>(op.bytes(0))).raw(&vbe_mode_raw(op.bytes(1)));
+            if a(op, 4) % 2 == 1 {
+                e.raw(&vbe_ctrl_fields_image(op.bytes(0))).raw(&vbe_mode_fields_image(op.bytes(1)));
+            } else {
+                e.raw(&fixed::<512>(op.bytes(0))).raw(&vbe_mode_raw(op.bytes(1)));
+            }
             mbi(7, e)
         }
         Ctor::Framebuffer => {
@@ -1127,10 +1226,10 @@ impl Built {
                 rb(&mut out, "interface_segment()", t.interface_segment(), a(op, 1) as u16);
                 rb(&mut out, "interface_offset()", t.interface_offset(), a(op, 2) as u16);
                 rb(&mut out, "interface_length()", t.interface_length(), a(op, 3) as u16);
-                if t.control_info() != vbe_ctrl(op.bytes(0)) {
+                if t.control_info() != vbe_args(op).0 {
                     out.findings.push(Finding { clause: "readback", detail: "control_info() differs from the argument".into() });
                 }
-                if t.mode_info() != vbe_mode(op.bytes(1)) {
+                if t.mode_info() != vbe_args(op).1 {
                     out.findings.push(Finding { clause: "readback", detail: "mode_info() differs from the argument".into() });
                 }
                 keep!(t);
@@ -1637,7 +1736,7 @@ pub fn gen_args(c: Ctor, rng: &mut Rng, k: &GenKnobs) -> (Vec<u64>, Vec<Vec<u8>>
                     *x = (i as u8).wrapping_mul(5).wrapping_add(2);
                 }
             }
-            (vec![sc(rng, 16), sc(rng, 16), sc(rng, 16), sc(rng, 16)], vec![ctrl, mode])
+            (vec![sc(rng, 16), sc(rng, 16), sc(rng, 16), sc(rng, 16), rng.below(2)], vec![ctrl, mode])
         }
         Ctor::Framebuffer => {
             let kind = rng.below(3);
